@@ -224,6 +224,10 @@ def build(rng):
     return line, exp, nontrivial, bytes(data)
 
 
+# what `wfull` prints for findings/example-C11-GhwExample.ghw: the statement of example_ghw_loads in the harness's format
+EXAMPLE_LISTING = 'ts=1e-15 tt=0,a 0:S:746f70:VhdlArchitecture:~:~:~ 1:V:64617461:b4:StdLogicVector:Implicit:3.0:0:~:7374645f6c6f6769635f766563746f72=0:B:01xz,a:B:1100,a:B:1101 1:V:636e74:b32:Integer:Output:~:1:~:696e7465676572=0:B:00000000000000000000000000000101,a:B:11111111111111111111111111111110'
+
+
 def run(res, rng, tier, model_ok, replay=None):
     cases = []
     if replay and designs.replay_filecase(res, replay, "c11f"):
@@ -255,6 +259,22 @@ def run(res, rng, tier, model_ok, replay=None):
             bad = designs.ghw_corrupt_headers(rng, paths[:(12 if tier == "quick" else 150)], os.path.dirname(paths[0]), 12)
             designs.ghw_model_tie(res, bad, "c11b", model_ok, what="corrupted-header", whole=False)
         designs.run_file_cases(res, designs.ghw_cases(rng, tier), "c11f", with_files=tie)
+        # the file of the end-to-end example (Proofs/GhwExample.v): the bytes in the Coq file are the bytes of
+        # findings/example-C11-GhwExample.ghw, and wellen loads them as the Coq example says the model does
+        import re
+        ex_file = os.path.join(core.VERIF, "findings", "example-C11-GhwExample.ghw")
+        src = open(os.path.join(core.COQ, "Proofs", "GhwExample.v")).read()
+        m = re.search(r"Definition example_ghw : list byte := \[(.*?)\]\.", src, re.S)
+        coq_bytes = bytes(int(x) for x in m.group(1).split(";")) if m else b""
+        got = core.run_cases(core.WV_DEBUG, ["wfull " + ex_file], "c11x")[0]
+        res.evaluations += 1
+        res.distribution["end-to-end-example"] = 1
+        if coq_bytes != open(ex_file, "rb").read():
+            res.mismatches.append(("Proofs/GhwExample.v example_ghw", "findings/example-C11-GhwExample.ghw", "the bytes differ"))
+        elif got != EXAMPLE_LISTING:
+            res.violations.append(("wfull " + ex_file, got[:2000], EXAMPLE_LISTING, "the file of the end-to-end example does not load as the example states"))
+        else:
+            res.nontrivial.add(("example",))
         corpus = sorted(f for f in glob.glob("/repo/wellen/inputs/**/*.ghw", recursive=True))
         designs.ghw_model_tie(res, corpus, "c11c", model_ok, what="corpus")
 
